@@ -6,6 +6,7 @@ import (
 	"io"
 	"math"
 	"testing"
+	"unsafe"
 
 	"github.com/acquirecloud/golibs/container"
 	gerrors "github.com/acquirecloud/golibs/errors"
@@ -25,12 +26,25 @@ type wrapped struct {
 }
 
 // runShape executes an op list on a RingBuffer[V] against a slice model; mk makes the i-th value.
-func runShape[V comparable](cp int, ops []Op, mk func(i int) V) *vstat.Violation {
+func runShape[V comparable](cp int, ops []Op, mk func(i int) V, congr *bool) *vstat.Violation {
 	return vstat.Guard("ring:panic", func() *vstat.Violation {
 		rb := container.NewRingBuffer[V](uint(cp))
 		var model []V
 		next := 0
 		var zero V
+		maxDst := 64
+		if unsafe.Sizeof(zero) == 0 {
+			maxDst = math.MaxInt // a destination slice of zero-size elements costs nothing whatever its length
+		}
+		for _, op := range ops {
+			if op.K != "w" && op.K != "r" && op.K != "c" && (op.N >= 1<<16 || op.N <= -(1<<16)) {
+				for _, m := range Moduli {
+					if r := ((op.N % m) + m) % m; r < 10 {
+						*congr = true
+					}
+				}
+			}
+		}
 		for i, op := range ops {
 			where := fmt.Sprintf("op #%d %s(%d) cap=%d elements of type %T", i, op.K, op.N, cp, zero)
 			switch op.K {
@@ -64,7 +78,7 @@ func runShape[V comparable](cp int, ops []Op, mk func(i int) V) *vstat.Violation
 					model = model[1:]
 				}
 			case "n":
-				ln := min(max(op.N, 0), 64)
+				ln := min(max(op.N, 0), maxDst)
 				dst := make([]V, ln)
 				want := min(ln, len(model))
 				if got := rb.ReadN(dst); got != want {
@@ -125,24 +139,39 @@ type shapeCase struct {
 }
 
 func runShapeCase(c shapeCase) *vstat.Violation {
+	v, _ := runShapeCaseInfo(c)
+	return v
+}
+
+// runShapeCaseInfo also tells whether an index/count argument was a small value moved out of range by a multiple of
+// 2^16, 2^31 or 2^32 (classification only).
+func runShapeCaseInfo(c shapeCase) (v *vstat.Violation, congr bool) {
 	switch c.Shape {
 	case "string":
-		return runShape(c.Cap, c.Ops, func(i int) string { return fmt.Sprintf("%s#%d", hostile[i%len(hostile)], i) })
+		v = runShape(c.Cap, c.Ops, func(i int) string { return fmt.Sprintf("%s#%d", hostile[i%len(hostile)], i) }, &congr)
 	case "struct":
-		return runShape(c.Cap, c.Ops, func(i int) wrapped { return wrapped{hostile[i%len(hostile)], i} })
+		v = runShape(c.Cap, c.Ops, func(i int) wrapped { return wrapped{hostile[i%len(hostile)], i} }, &congr)
 	case "barestring":
-		return runShape(c.Cap, c.Ops, func(i int) string { return hostile[i%len(hostile)] })
+		v = runShape(c.Cap, c.Ops, func(i int) string { return hostile[i%len(hostile)] }, &congr)
 	default: // zero-size elements: the only shape for which capacities near MaxInt can be allocated
-		return runShape(c.Cap, c.Ops, func(i int) struct{} { return struct{}{} })
+		v = runShape(c.Cap, c.Ops, func(i int) struct{} { return struct{}{} }, &congr)
 	}
+	return v, congr
 }
 
 func TestC14Shapes(t *testing.T) {
 	st := vstat.For(prop)
 	run := func(tb vstat.TB, c shapeCase) {
-		v := runShapeCase(c)
+		v, congr := runShapeCaseInfo(c)
 		st.Report(tb, "TestC14Shapes", c, v)
-		st.Case(true, vstat.Hash(c), func() any { return c }, "element_shape:"+c.Shape)
+		classes := []string{"element_shape:" + c.Shape}
+		if congr {
+			classes = append(classes, "element_shape:"+c.Shape+":argument_congruent_to_small_value_mod_2^16_2^31_2^32")
+			if c.Cap > 1<<32 {
+				classes = append(classes, "element_shape:"+c.Shape+":such_an_argument_on_a_backing_array_beyond_2^32_slots")
+			}
+		}
+		st.Case(true, vstat.Hash(c), func() any { return c }, classes...)
 	}
 	// systematic: fill to capacity, write once more (with every hostile text in turn), drain
 	for _, shape := range []string{"string", "barestring", "struct"} {
@@ -168,6 +197,12 @@ func TestC14Shapes(t *testing.T) {
 				ops = append(ops, Op{K: "a", N: i / 2}, Op{K: "r"}, Op{K: "s", N: 7}, Op{K: "n", N: 5})
 			}
 		}
+		// arguments whose low 16, 31 or 32 bits look like a small in-range value
+		for _, m := range Moduli {
+			for _, mult := range []int{1, 3, -1} {
+				ops = append(ops, Op{K: "a", N: mult*m + 2}, Op{K: "a", N: mult * m}, Op{K: "w"}, Op{K: "w"}, Op{K: "s", N: mult*m + 1}, Op{K: "w"}, Op{K: "w"}, Op{K: "n", N: mult*m + 1})
+			}
+		}
 		ops = append(ops, Op{K: "a", N: 0}, Op{K: "c"}, Op{K: "r"}, Op{K: "w"}, Op{K: "a", N: 0})
 		run(t, shapeCase{Shape: "zerosize", Cap: cp, Ops: ops})
 	}
@@ -180,7 +215,12 @@ func TestC14Shapes(t *testing.T) {
 		kinds := []string{"w", "w", "w", "w", "r", "n", "s", "a", "c"}
 		n := rapid.IntRange(1, 60).Draw(rt, "len")
 		for i := 0; i < n; i++ {
-			c.Ops = append(c.Ops, Op{K: rapid.SampledFrom(kinds).Draw(rt, "k"), N: rapid.IntRange(-1, 8).Draw(rt, "n")})
+			op := Op{K: rapid.SampledFrom(kinds).Draw(rt, "k"), N: rapid.IntRange(-1, 8).Draw(rt, "n")}
+			// one argument in six leaves the range by a multiple of 2^16, 2^31 or 2^32
+			if op.K != "w" && op.K != "r" && op.K != "c" && rapid.IntRange(0, 5).Draw(rt, "wide") == 0 {
+				op.N += rapid.SampledFrom([]int{1, 1, 1, 2, 3, -1, -2, 255, 1 << 20}).Draw(rt, "mult") * rapid.SampledFrom(Moduli).Draw(rt, "modulus")
+			}
+			c.Ops = append(c.Ops, op)
 		}
 		run(rt, c)
 	})
